@@ -417,6 +417,11 @@ def run(ctx):
         if rng.random() < 0.5:
             txt = "".join(c.upper() if rng.random() < 0.5 else c for c in txt)
         cases.append(("radix:string->number", '(string->number "%s" %d)' % (txt, r), "spec1 7 %s" % zhex(z), ("s2n", r, txt), abs(z) > FIXMAX))
+    # round 2: exact complex numbers, rationals in radix r, exact <-> inexact on binary64 bit patterns
+    cases += gen_complex(ctx, rng, 500 if not ctx.thorough else 12000)
+    cases += gen_radix_q(ctx, rng, exe, lat, 250 if not ctx.thorough else 6000)
+    if os.path.exists(os.path.join(os.path.dirname(__file__), "..", "coq", "C04", "SpecFloat.v")):
+        cases += gen_conv(ctx, rng, exe)
     so = ctx.run_model(exe, [c[2] for c in cases])
     io = run_outer(ctx, d, [c[1] for c in cases])
     byop = {}
@@ -425,11 +430,26 @@ def run(ctx):
         byop[sig.split(":")[0]] = byop.get(sig.split(":")[0], 0) + 1
         if i == "SKIPPED":
             continue
-        ok, why = _agree(sp, i)
+        ok, why = (_agree_cpx(sp, i) if sig.startswith("cpx:") else _agree_qradix(sp, i) if sig == "qradix:number->string" else _agree(sp, i))
         if not ok:
             ctx.violation(sig, input=e, expected=sp, observed=i, why=why,
                           replay="echo '(import (scheme base) (scheme write) (scheme inexact)) (call-with-values (lambda () %s) (lambda r (write r)))' > /tmp/c04-replay.scm; LD_LIBRARY_PATH=%s CHIBI_MODULE_PATH=%s/lib CHIBI_IGNORE_SYSTEM_PATH=1 %s/chibi-scheme /tmp/c04-replay.scm" % (e.replace("'", "'\\''"), d, d, d))
     ctx.cov["outer_by_stream"] = byop
+    # round 2: the models the new theorems are about (Model7 generic dispatch over exact reals / complex numbers, Model8
+    # sexp_inexact_to_exact) run on the same inputs and must give the spec's value in canonical form
+    mreq, mexp = [], []
+    for (sig, e, q, key, nt), sp in zip(cases, so):
+        if sig.startswith("cpx:") and q.split()[1] in "0123":
+            x, y = key[2], key[3]
+            mreq.append("g_op %s %s" % (q.split()[1], " ".join(numstr(None, v, False) for v in (x[0] + x[1] + y[0] + y[1]))))
+            mexp.append(sp)
+        elif sig.startswith("convert:exact:"):
+            mreq.append("model_exact_bits %x" % key[1])
+            mexp.append(sp)
+    for rq, m, sp in zip(mreq, ctx.run_model(exe, mreq), mexp):
+        ctx.count(1, key=("model", rq), nontrivial=True)
+        if not _model_agrees(m, sp):
+            ctx.broken("correspondence:model-vs-spec:" + rq.split()[0], "%s: model %s, spec %s" % (rq[:300], m[:300], sp[:300]))
     ctx.sample(dict(kind="outer", expr=cases[0][1], spec=so[0], impl=io[0]))
     ctx.sample(dict(kind="outer", expr=cases[-1][1], spec=so[-1], impl=io[-1]))
     ctx.assume("flonum arithmetic, transcendental functions and complex numbers are outside this check")
@@ -549,6 +569,268 @@ def gen_outer(ctx, rng, lat, n_out):
                 e = "(let ((a (/ %s %s))) (let ((r %s)) (if (equal? a (/ %s %s)) r (error \"operand-mutated\"))))" % (
                     scm.hexlit(n1), scm.hexlit(d1), tmpl, scm.hexlit(n1), scm.hexlit(d1))
                 cases.append(("ratio:%s" % tmpl.split()[0].strip("("), e, "specq1 %d %s %s" % (idx, zhex(n1), zhex(d1)), (tmpl, n1, d1), True))
+    return cases
+
+
+# ---------------------------------------------------------------------------------------------- round 2
+# exact complex numbers (Gaussian rationals): type-pair table of sexp_add/sub/mul/div x boundary values
+CPX_INTS = [0, 1, -1, 2, -2, 3, FIXMAX, -FIXMAX - 1, FIXMAX + 1, -FIXMAX - 2, 1 << 61, -(1 << 61), (1 << 61) + 1, B64, -B64 + 1, (1 << 128) - 1]
+CPX_RATS = [(1, 2), (-1, 2), (3, 4), (-5, 3), (-(1 << 62), 3), ((1 << 62) - 1, 2), ((1 << 64) + 1, 1 << 62), (-1, 1 << 64), (7, (1 << 62) + 1),
+            (1 << 61, 3), (-(1 << 61) - 1, 1 << 61)]
+COPS = [(0, "(+ a b)"), (1, "(- a b)"), (2, "(* a b)"), (3, "(/ a b)"), (4, "(= a b)")]
+
+
+def _qlit(n, d):
+    return scm.hexlit(n) if d == 1 else "(/ %s %s)" % (scm.hexlit(n), scm.hexlit(d))
+
+
+def _clit(re, im):
+    return _qlit(*re) if im[0] == 0 else "(make-rectangular %s %s)" % (_qlit(*re), _qlit(*im))
+
+
+def _ckind(re, im):
+    if im[0] != 0:
+        return "c"
+    return "r" if re[1] != 1 else tcls(re[0])
+
+
+def gen_complex(ctx, rng, n):
+    """operands of every kind {fixnum, bignum, ratio, complex with fixnum/bignum/ratio parts}; every case has a complex operand"""
+    from fractions import Fraction
+    cases = []
+
+    def part(kind=None):
+        kind = kind or rng.choice("fbrr")
+        if kind == "r":
+            n_, d_ = rng.choice(CPX_RATS) if rng.random() < 0.7 else (rng.getrandbits(rng.choice([5, 62, 70])) - 9, rng.getrandbits(rng.choice([3, 62, 66])) + 2)
+            fr = Fraction(n_, d_)
+            return (fr.numerator, fr.denominator)
+        while True:
+            v = rng.choice(CPX_INTS) if rng.random() < 0.8 else (rng.getrandbits(rng.choice([8, 62, 64, 130])) - 77)
+            if (kind == "f") == (-(1 << 62) <= v <= FIXMAX):
+                return (v, 1)
+
+    def operand(kind):
+        if kind == "c":
+            im = part()
+            while im[0] == 0:
+                im = part()
+            return part(), im
+        return part(kind), (0, 1)
+
+    def add(idx, tmpl, x, y):
+        la, lb = _clit(*x), _clit(*y)
+        e = ("(let ((a %s) (b %s)) (let ((r %s)) (if (and (equal? a %s) (equal? b %s)) "
+             "(if (boolean? r) r (values (real-part r) (imag-part r) r)) (error \"operand-mutated\"))))" % (la, lb, tmpl, la, lb))
+        q = "specc2 %d %s" % (idx, " ".join(zhex(v) for v in (x[0] + x[1] + y[0] + y[1])))
+        cases.append(("cpx:%s:%s%s" % (tmpl.split()[0].strip("("), _ckind(*x), _ckind(*y)), e, q, ("cpx", tmpl, x, y), True))
+
+    # the witnesses of F-C04-9/10/11 first, then the full type-pair table, then seeded operands
+    H, M = (1, 2), (-(1 << 62), 1)
+    fixed = [(1, (H, (0, 1)), ((3, 4), (-5, 1))), (1, ((3, 4), (-5, 1)), (H, (0, 1))), (1, ((5, 1), (0, 1)), (H, (3, 4))),
+             (1, (H, (3, 4)), (H, (3, 4))), (1, ((1, 1), (0, 1)), (M, M)), (1, ((0, 1), (0, 1)), (M, M)), (1, ((0, 1), (0, 1)), ((-(1 << 62), 3), (1, 1))),
+             (3, (H, (0, 1)), ((3, 4), (-5, 1))), (3, ((3, 4), (-5, 1)), (H, (0, 1))),
+             (2, ((1 << 61, 1), (1, 1)), ((1, 1), (-(1 << 61), 1))), (3, ((1 << 61, 1), (1 << 61, 1)), ((1, 1), (-1, 1))),
+             (1, ((1 << 70, 1), (1, 1)), ((5, 1), (0, 1))), (1, ((5, 1), (0, 1)), ((1 << 70, 1), (1, 1))), (3, (H, (3, 4)), ((0, 1), (0, 1)))]
+    for idx, x, y in fixed:
+        add(idx, COPS[idx][1], x, y)
+    for ka in "fbrc":
+        for kb in "fbrc":
+            if "c" not in (ka, kb):
+                continue
+            for idx, tmpl in COPS:
+                add(idx, tmpl, operand(ka), operand(kb))
+    for _ in range(n):
+        ka, kb = rng.choice(["c" + rng.choice("fbrc"), rng.choice("fbrc") + "c"])
+        idx, tmpl = rng.choice(COPS)
+        x, y = operand(ka), operand(kb)
+        r0 = rng.random()
+        if r0 < 0.1:
+            y = x                                          # z op z: aliasing, exact zero / one results
+        elif r0 < 0.2 and x[1][0]:
+            y = (x[0], (-x[1][0], x[1][1]))                # conjugate: the product / sum collapses to a real
+        elif r0 < 0.3:
+            y = ((-x[0][0], x[0][1]), (-x[1][0], x[1][1]))
+        add(idx, tmpl, x, y)
+    return cases
+
+
+def _agree_cpx(spec, impl):
+    if impl is None:
+        return False, "no output"
+    if spec == "DIVZERO":
+        return (impl.startswith("ERR") and "operand-mutated" not in impl), "expected a divide-by-zero error"
+    if impl.startswith(("ERR", "CRASH", "TIMEOUT")):
+        return False, "error / crash where a value is defined"
+    if spec.startswith("B "):
+        return impl == ("#t" if spec[2] == "1" else "#f"), "boolean"
+    exp = [_z(x) for x in spec[2:].split(",")]
+    got = impl.split(" ")
+    if len(got) != 3 or len(exp) != 4:
+        return False, "number of values"
+    for tok, n, dd in ((got[0], exp[0], exp[1]), (got[1], exp[2], exp[3])):
+        if dd == 1:
+            p = scm.parse_int(tok)
+            if p is None or p[1] != n:
+                return False, "part is not the exact value"
+            if (p[0] == "f") != (-(1 << 62) <= n <= FIXMAX):
+                return False, "part not canonical (fixnum iff it fits)"
+        elif tok != "%d/%d" % (n, dd):
+            return False, "part is not the reduced exact ratio"
+    if exp[2] == 0 and ("i" in got[2]):
+        return False, "not canonical: complex object with exact zero imaginary part"
+    if exp[2] != 0 and not got[2].endswith("i"):
+        return False, "imaginary part lost"
+    return True, ""
+
+
+def _model_agrees(m, sp):
+    if sp == "DIVZERO":
+        return m == "EXC"
+    if sp == "UNDEF":
+        return m in ("NOTFINITE", "EXC")
+    if not (m.startswith("M ") and sp.startswith("V ")):
+        return False
+    toks, exp = m[2:].split(" "), [_z(x) for x in sp[2:].split(",")]
+    if len(toks) != len(exp):
+        return False
+    for t, x in zip(toks, exp):
+        if _num(t) != x or (t.startswith("f:") != (-(1 << 62) <= x <= FIXMAX)):
+            return False
+    return True
+
+
+def radix_digits(spec_line):
+    vals = [_z(x) for x in spec_line[2:].split(",")]
+    return ("-" if vals[0] < 0 else "") + "".join("/" if v < 0 else DIG[v] for v in vals[1:])
+
+
+def gen_radix_q(ctx, rng, exe, lat, n):
+    """exact rationals in radix 2/8/10/16 (string->number, #x literals) and 2..36 (number->string):
+    fixnum and bignum numerators / denominators, unreduced text, negative numbers"""
+    from fractions import Fraction
+    small = [v for v in lat if abs(v).bit_length() <= 300]
+    pool = BX + [3, -3, 5, 7, 10, 255, (1 << 64) + 1, (1 << 68), -(1 << 68)] + small[:40]
+    raw = []
+    for r in (2, 8, 10, 16):      # the F-C04-12 witness in every radix: bignum numerator, denominator "10"
+        raw += [(r, r ** 40, r), (r, -(r ** 40) - 1, r * r), (r, r, r ** 40 + 1), (r, FIXMAX + 1, 3), (r, FIXMAX, 3), (r, 3, FIXMAX + 1), (r, -FIXMAX - 1, 3)]
+    for _ in range(n):
+        r = rng.choice([2, 8, 10, 16, 16, 16, 2, rng.randrange(2, 37)])
+        nn = rng.choice(pool) if rng.random() < 0.7 else rng.getrandbits(rng.choice([10, 62, 64, 130])) * rng.choice([1, -1])
+        dd = abs(rng.choice(pool)) if rng.random() < 0.6 else rng.getrandbits(rng.choice([4, 62, 64, 130]))
+        dd = dd or rng.choice([2, 3, 10, 16])
+        if rng.random() < 0.2:
+            g = rng.choice([2, 3, 16, 1 << 64])
+            nn, dd = nn * g, dd * g
+        raw.append((r, nn, dd))
+    pre = []
+    for r, nn, dd in raw:
+        pre += ["spec_radix %x %s" % (r, zhex(nn)), "spec_radix %x %s" % (r, zhex(dd))]
+    po = ctx.run_model(exe, pre)
+    cases = []
+    for k, (r, nn, dd) in enumerate(raw):
+        tn, td = radix_digits(po[2 * k]), radix_digits(po[2 * k + 1])
+        fr = Fraction(nn, dd)
+        nt = max(abs(nn), abs(dd)) > FIXMAX
+        cases.append(("qradix:number->string", "(number->string (/ %s %s) %d)" % (scm.hexlit(nn), scm.hexlit(dd), r),
+                      "spec_radix_q %x %s %s" % (r, zhex(nn), zhex(dd)), ("qn2s", r, nn, dd), nt))
+        if r not in (2, 8, 10, 16):
+            continue
+        txt = tn + "/" + td
+        if rng.random() < 0.4:
+            txt = "".join(c.upper() if rng.random() < 0.5 else c for c in txt)
+        form = rng.random()
+        if form < 0.6:
+            e = '(string->number "%s" %d)' % (txt, r)
+        elif form < 0.8:
+            e = '(string->number "#%s%s")' % ({2: "b", 8: "o", 10: "d", 16: "x"}[r], txt)
+        else:
+            e = '(read (open-input-string "#%s%s"))' % ({2: "b", 8: "o", 10: "d", 16: "x"}[r], txt)
+        cases.append(("qradix:string->number", e, "spec_q %s %s" % (zhex(nn), zhex(dd)), ("qs2n", r, txt, form < 0.6), nt))
+        # round trip through the implementation's own text
+        cases.append(("qradix:roundtrip", "(string->number (number->string (/ %s %s) %d) %d)" % (scm.hexlit(nn), scm.hexlit(dd), r, r),
+                      "spec_q %s %s" % (zhex(nn), zhex(dd)), ("qrt", r, nn, dd), nt))
+    return cases
+
+
+def _agree_qradix(spec, impl):
+    if impl is None or impl.startswith(("ERR", "CRASH", "TIMEOUT")):
+        return False, "error where a value is defined"
+    return impl == '"%s"' % radix_digits(spec), "text of the ratio in this radix"
+
+
+# exact <-> inexact: binary64 bit patterns
+def _bits_of(x):
+    import struct
+    return struct.unpack(">Q", struct.pack(">d", x))[0]
+
+
+def _float_of(bits):
+    import struct
+    return struct.unpack(">d", struct.pack(">Q", bits))[0]
+
+
+def flo_expr(bits):
+    """a Scheme expression whose value is the finite double with these bits, built from exact steps only:
+    a fixnum below 2^53 converted by the C cast, times two powers of two (each product is representable, hence exact)"""
+    from fractions import Fraction
+    x = _float_of(bits)
+    if x == 0:
+        return "0."
+    fr = Fraction(x)
+    m, k = fr.numerator, 0
+    if fr.denominator != 1:
+        k = -(fr.denominator.bit_length() - 1)
+    while m % 2 == 0:
+        m //= 2
+        k += 1
+    k1 = k // 2
+    return "(* (* (inexact %d) (expt 2. %d)) (expt 2. %d))" % (m, k1, k - k1)
+
+
+def conv_bits(rng, thorough):
+    out = set()
+    ks = range(-1074, 1024) if thorough else sorted(set([-1074, -1073, -1072, -1030, -1023, -1022, -1021, -1, 0, 1, 52, 53, 54, 61, 62, 63, 64, 65, 127, 128, 1022, 1023]
+                                                       + [rng.randrange(-1074, 1024) for _ in range(60)]))
+    for k in ks:
+        b = _bits_of(2.0 ** k)
+        for nb in (b - 1, b, b + 1):
+            if 0 < nb < 0x7FF0000000000000:
+                out.add(nb)
+                out.add(nb | (1 << 63))
+    for _ in range(150 if not thorough else 3000):
+        e = rng.choice([0, 1, 2, 1022, 1023, 1023 + 52, 1023 + 53, 1023 + 61, 1023 + 62, 1023 + 63, 1023 + 64, 2046, rng.randrange(0, 2047)])
+        f = rng.choice([0, 1, (1 << 52) - 1, 1 << 51, rng.getrandbits(52), rng.getrandbits(52) & ~((1 << rng.randrange(0, 52)) - 1)])
+        out.add((rng.getrandbits(1) << 63) | (e << 52) | f)
+    return sorted(out)
+
+
+def gen_conv(ctx, rng, exe):
+    from fractions import Fraction
+    bits = conv_bits(rng, ctx.thorough)
+    cases = []
+    qs = []
+    for b in bits:
+        cases.append(("convert:exact:%s" % ("integer" if _float_of(b) == int(_float_of(b)) else "dyadic"), "(exact %s)" % flo_expr(b),
+                      "spec_exact_bits %x" % b, ("exact", b), True))
+        fr = Fraction(_float_of(b))
+        qs.append((fr.numerator, fr.denominator, b))
+        if rng.random() < 0.15:        # unreduced: huge numerator AND denominator, representable quotient
+            g = rng.choice([3 ** 700, (1 << 1100) + 1, 10 ** 400])
+            qs.append((fr.numerator * g, fr.denominator * g, b))
+    po = ctx.run_model(exe, ["spec_inexact_bits %s %s" % (zhex(n), zhex(d)) for n, d, _ in qs])
+    for (n, d, b), sp in zip(qs, po):
+        if not sp.startswith("V "):
+            ctx.broken("spec:inexact_bits", "the spec finds no double for the value of the double %x: %s" % (b, sp))
+            continue
+        sb = _z(sp[2:])
+        if sb != (b if _float_of(b) != 0 else 0):
+            ctx.broken("spec:inexact_bits", "spec bits %x differ from the generating double %x" % (sb, b))
+            continue
+        f = flo_expr(sb)
+        e = "(let ((x (inexact (/ %s %s)))) (if (eqv? x %s) (exact x) x))" % (scm.hexlit(n), scm.hexlit(d), f)
+        kind = "integer" if d == 1 else ("ratio-huge-denominator" if d.bit_length() > 1024 else "ratio")
+        cases.append(("convert:inexact:%s" % kind, e, "spec_q %s %s" % (zhex(n), zhex(d)), ("inexact", n, d), True))
     return cases
 
 
@@ -709,8 +991,6 @@ def _judge_inner(q, out):
             return _num(out) == e and out.startswith("f:") == (e <= FIXMAX)
         if f[0] in ("num_add", "num_sub", "num_mul", "vm_add", "vm_sub", "vm_mul"):
             x, y = _num(f[1]), _num(f[2])
-            if f[0] == "num_sub" and f[1][0] == "f" and f[2][0] == "f" and not (-(1 << 62) <= x - y <= FIXMAX):
-                return True       # raw sexp_fx_sub outside its domain ("VM catches this case"): no claim
             e = x + y if f[0].endswith("add") else x - y if f[0].endswith("sub") else x * y
             return _num(out) == e and out.startswith("f:") == (-(1 << 62) <= e <= FIXMAX)
     except Exception:
